@@ -477,3 +477,159 @@ def register(ex):  # noqa: F811
              "models/nn/ops.py:Normalization.__init__  normalizer built without `track_running_stats=False`", norm_tracks_running(ex))
     ex.probe("augLayerNormDims", "List Nat", "[1, 2]",
              "models/nn/ops.py:Normalization.forward  dims of the 'layer' branch's `x.mean((1, 2))` / `x.var((1, 2))`", layer_norm_dims(ex))
+
+
+# ---- growth round 2 ---------------------------------------------------------------------------------------
+
+def eval_lists_local(ex):
+    """EvalBase: `rewards_list` / `actions_list` are fresh locals of `__call__` (true) or attributes of the evaluator
+    object (false: results of earlier calls would be carried over)"""
+
+    def run():
+        tree = ex.parse("rl4co/tasks/eval.py")
+        cls = ex.find_function(tree, "EvalBase") if tree else None
+        call = ex.find_function(tree, "EvalBase.__call__") if tree else None
+        if cls is None or call is None:
+            return None
+        names = ("rewards_list", "actions_list")
+        attr = [n for n in ast.walk(cls) if isinstance(n, ast.Attribute) and n.attr in names
+                and isinstance(n.value, ast.Name) and n.value.id == "self"]
+        local = set()
+        for n in ast.walk(call):
+            if isinstance(n, ast.Assign) and len(n.targets) == 1 and isinstance(n.targets[0], ast.Name) \
+                    and n.targets[0].id in names and isinstance(n.value, ast.List) and not n.value.elts:
+                local.add(n.targets[0].id)
+        if attr:
+            return "false"
+        if local == set(names):
+            return "true"
+        return None
+
+    return run
+
+
+NN_FILES = ["rl4co/models/nn/attention.py", "rl4co/models/nn/ops.py", "rl4co/models/nn/mlp.py",
+            "rl4co/models/nn/graph/attnnet.py", "rl4co/models/nn/env_embeddings/init.py",
+            "rl4co/models/nn/env_embeddings/context.py", "rl4co/models/nn/env_embeddings/dynamic.py",
+            "rl4co/models/zoo/am/encoder.py", "rl4co/models/zoo/am/decoder.py", "rl4co/models/zoo/am/policy.py",
+            "rl4co/models/zoo/symnco/policy.py", "rl4co/models/zoo/ham/encoder.py", "rl4co/models/zoo/ham/attention.py",
+            "rl4co/models/zoo/polynet/policy.py", "rl4co/models/zoo/polynet/decoder.py",
+            "rl4co/models/zoo/ptrnet/encoder.py", "rl4co/models/zoo/ptrnet/decoder.py", "rl4co/models/zoo/ptrnet/policy.py",
+            "rl4co/models/zoo/mdam/encoder.py", "rl4co/models/zoo/mdam/decoder.py", "rl4co/models/zoo/mdam/mha.py",
+            "rl4co/models/zoo/l2d/encoder.py", "rl4co/models/zoo/l2d/decoder.py", "rl4co/models/zoo/l2d/policy.py",
+            "rl4co/models/zoo/matnet/encoder.py", "rl4co/models/zoo/matnet/decoder.py",
+            "rl4co/models/common/constructive/base.py", "rl4co/models/common/constructive/autoregressive/policy.py"]
+REDUCERS = {"mean", "sum", "std", "var", "softmax", "log_softmax", "cumsum", "amax", "amin", "prod", "logsumexp", "norm"}
+
+
+def _walk_funcs(tree):
+    """(qualified name, node) of every function, class-qualified"""
+    out = []
+
+    def rec(node, prefix):
+        for ch in ast.iter_child_nodes(node):
+            if isinstance(ch, ast.ClassDef):
+                rec(ch, prefix + [ch.name])
+            elif isinstance(ch, (ast.FunctionDef, ast.AsyncFunctionDef)):
+                out.append((".".join(prefix + [ch.name]), ch))
+                rec(ch, prefix + [ch.name])
+
+    rec(tree, [])
+    return out
+
+
+def batch_dim_reductions(ex):
+    """reductions over the BATCH dimension (dim 0 / a tuple containing 0) in the nn modules the bundled constructive
+    policies are built from: `x.mean(0)`, `x.sum(dim=0)`, `torch.softmax(x, dim=0)`, `x.mean(dim=0, keepdim=True)`, …
+    Each hit is reported as `file:function:method`."""
+
+    def dim_of(call, is_method):
+        for k in call.keywords:
+            if k.arg in ("dim", "axis"):
+                return k.value
+        args = call.args if is_method else call.args[1:]
+        return args[0] if args else None
+
+    def has_zero(d):
+        if isinstance(d, ast.Constant) and isinstance(d.value, int) and not isinstance(d.value, bool):
+            return d.value == 0
+        if isinstance(d, (ast.Tuple, ast.List)):
+            return any(has_zero(e) for e in d.elts)
+        return False
+
+    def run():
+        hits = []
+        seen_any = False
+        for rel in NN_FILES:
+            tree = ex.parse(rel)
+            if tree is None:
+                continue
+            seen_any = True
+            short = rel.split("rl4co/models/")[-1]
+            for qn, fn in _walk_funcs(tree):
+                for n in ast.walk(fn):
+                    if isinstance(n, ast.Call) and isinstance(n.func, ast.Attribute) and n.func.attr in REDUCERS:
+                        is_method = not (isinstance(n.func.value, ast.Name) and n.func.value.id in ("torch", "F"))
+                        d = dim_of(n, is_method)
+                        if d is not None and has_zero(d):
+                            hits.append(f"{short}:{qn}:{n.func.attr}")
+        if not seen_any:
+            return None
+        hits = sorted(set(hits))
+        return "[" + ", ".join('"' + h + '"' for h in hits) + "]"
+
+    return run
+
+
+def forced_train_mode(ex):
+    """places in those modules that make a layer behave as in training regardless of `module.training`:
+    `F.dropout(...)` / `F.batch_norm(...)` with `training=True` or without a `training=` argument tied to
+    `self.training`, `nn.BatchNorm*(…, track_running_stats=False)`, calls of `.train()`"""
+
+    def run():
+        hits = []
+        seen_any = False
+        for rel in NN_FILES:
+            tree = ex.parse(rel)
+            if tree is None:
+                continue
+            seen_any = True
+            short = rel.split("rl4co/models/")[-1]
+            for qn, fn in _walk_funcs(tree):
+                for n in ast.walk(fn):
+                    if not isinstance(n, ast.Call):
+                        continue
+                    f = ex.norm(n.func)
+                    if f in ("F.dropout", "F.batch_norm", "torch.nn.functional.dropout", "torch.nn.functional.batch_norm"):
+                        tr = [k for k in n.keywords if k.arg == "training"]
+                        if not tr or not ex.norm(tr[0].value).endswith("self.training"):
+                            hits.append(f"{short}:{qn}:{f.split('.')[-1]}")
+                    if f.split(".")[-1].startswith("BatchNorm") or f.split(".")[-1].startswith("InstanceNorm"):
+                        for k in n.keywords:
+                            if k.arg == "track_running_stats" and isinstance(k.value, ast.Constant) and k.value.value is False \
+                                    and f.split(".")[-1].startswith("BatchNorm"):
+                                hits.append(f"{short}:{qn}:BatchNorm(track_running_stats=False)")
+                    if isinstance(n.func, ast.Attribute) and n.func.attr == "train" and not n.args and not n.keywords:
+                        hits.append(f"{short}:{qn}:train()")
+        if not seen_any:
+            return None
+        hits = sorted(set(hits))
+        return "[" + ", ".join('"' + h + '"' for h in hits) + "]"
+
+    return run
+
+
+_register_round1 = register
+
+
+def register(ex):  # noqa: F811
+    _register_round1(ex)
+    ex.probe("augEvalListsLocal", "Bool", "true",
+             "tasks/eval.py:EvalBase.__call__  `rewards_list = []` / `actions_list = []` are locals of __call__, not attributes",
+             eval_lists_local(ex))
+    ex.probe("augBatchDimReductions", "List String", '["nn/attention.py:PointerAttnMoE._project_out:mean"]',
+             "reductions over the batch dim (dim 0) in the nn modules of the bundled constructive policies (file:function:method)",
+             batch_dim_reductions(ex))
+    ex.probe("augForcedTrainMode", "List String", '["nn/attention.py:scaled_dot_product_attention_simple:dropout", "zoo/matnet/encoder.py:MixedScoresSDPA.forward:dropout", "zoo/ptrnet/policy.py:PointerNetworkPolicy.forward:train()"]',
+             "dropout / batch-norm forced into training behaviour, BatchNorm(track_running_stats=False), .train() calls in those modules",
+             forced_train_mode(ex))
